@@ -38,6 +38,10 @@ type impTarget struct {
 	elem               string   // name of a type treated as an ABSTRACT element type F with operations mul / one / inv (field level)
 	abstract           []string // package-local functions called as ABSTRACT parameters (hash arguments dropped); their source text is
 	// emitted as `abstractSrc` so that an edit of them breaks the proofs that pin it
+	methodCalls bool // methods may call the methods translated before them on their receiver; a method that never assigns its
+	// receiver returns its results only; a slice result for which some return gives the literal nil is an Option
+	pre map[string][]string // unexported function -> pointer paths (receiver paths / parameter names) that must be non-nil at entry:
+	// assumed inside the function, CHECKED at every call site; every caller in the package must be a translated function
 }
 
 var impTargets = []impTarget{
@@ -48,6 +52,10 @@ var impTargets = []impTarget{
 	{dir: "field/hash", file: "hashutils.go", ns: "HashUtils", out: "Imp/ExpandMsgXmd.lean", funcs: []string{"min", "ExpandMsgXmd"}},
 	{dir: "accumulator/merkletree", file: "verify.go", ns: "MerkleVerify", out: "Imp/MerkleVerify.lean", funcs: []string{"VerifyProof"},
 		abstract: []string{"leafSum", "nodeSum", "sum"}},
+	{dir: "accumulator/merkletree", file: "tree.go", ns: "MerkleTree", out: "Imp/MerkleTree.lean",
+		funcs:    []string{"New", "joinSubTrees", "joinAllSubTrees", "Root", "Push", "Prove", "SetIndex", "PushSubTree"},
+		abstract: []string{"leafSum", "nodeSum", "sum"}, methodCalls: true,
+		pre:      map[string][]string{"joinSubTrees": {"a", "b"}, "joinAllSubTrees": {"t.head"}}},
 }
 
 // ---------------------------------------------------------------------------------------------- types
@@ -113,11 +121,23 @@ type impPkg struct {
 	absDecl    map[string]*ast.FuncDecl
 	absCalled  []string
 	translated map[string]*impSig // pure package-local functions translated so far (callable from later ones)
+	listNext   map[string]string   // struct S with a field `next *S`: name of that field (S is the node type of a singly linked list)
+	methods    map[string]*impMeth // methods translated so far (callable on the receiver from later ones)
+	callers    map[string][]string // function / method name -> names of the package functions whose body calls it
 }
 
 type impSig struct {
-	params []*ity
-	result *ity
+	params   []*ity
+	result   *ity
+	pnames   []string
+	nonNilRe bool // every return statement returns a fresh `&T{…}`
+}
+
+type impMeth struct {
+	mutates bool // the def returns the new receiver value (first component)
+	params  []*ity
+	results []*ity
+	nfuel   int
 }
 
 var impAbsParams, impAbsArgs string // abstract function parameters carried by every def of the current target
@@ -204,7 +224,11 @@ func (p *impPkg) goType(e ast.Expr) *ity {
 			return &ity{k: "map", elem: p.goType(v.Value)}
 		}
 	case *ast.StarExpr:
-		if t := p.goType(v.X); t.k == "struct" || t.k == "elem" {
+		if t := p.goType(v.X); t.k == "struct" && p.listNext[t.name] != "" {
+			// pointer to a list node: the VALUE is the chain of nodes reachable through `next` (nil = []); sound because nodes are
+			// immutable once shared (field writes only to a node that is fresh and referenced by one path, checked)
+			return &ity{k: "lptr", elem: t}
+		} else if t.k == "struct" || t.k == "elem" {
 			return &ity{k: "ptr", elem: t}
 		} else if t.k == "bigint" { // *big.Int is read as an exact integer VALUE (mutating methods only on fresh objects)
 			return t
@@ -254,6 +278,8 @@ func (p *impPkg) lty(t *ity, qual bool) string {
 		return "GoMap " + p.ltyA(t.elem, qual)
 	case "ptr":
 		return "Option " + p.ltyA(t.elem, qual)
+	case "lptr":
+		return "List " + p.ltyA(t.elem, qual)
 	case "struct":
 		if qual {
 			return p.tg.ns + "." + t.name
@@ -278,8 +304,10 @@ func (p *impPkg) zero(t *ity) string {
 		return "0"
 	case "bool":
 		return "false"
-	case "string", "slice", "events":
+	case "string", "slice", "events", "lptr":
 		return "[]"
+	case "nslice":
+		return "none"
 	case "waitgroup":
 		return "()"
 	case "hash":
@@ -299,7 +327,8 @@ func (p *impPkg) zero(t *ity) string {
 // ---------------------------------------------------------------------------------------------- loading
 
 func loadImp(tg impTarget) *impPkg {
-	p := &impPkg{tg: tg, fset: token.NewFileSet(), structs: map[string][]impField{}, errVars: map[string]string{}, funcs: map[string]*ast.FuncDecl{}, absDecl: map[string]*ast.FuncDecl{}, translated: map[string]*impSig{}}
+	p := &impPkg{tg: tg, fset: token.NewFileSet(), structs: map[string][]impField{}, errVars: map[string]string{}, funcs: map[string]*ast.FuncDecl{}, absDecl: map[string]*ast.FuncDecl{}, translated: map[string]*impSig{},
+		listNext: map[string]string{}, methods: map[string]*impMeth{}, callers: map[string][]string{}}
 	f, err := parser.ParseFile(p.fset, filepath.Join(repo, tg.dir, tg.file), nil, parser.ParseComments)
 	if err != nil {
 		die("imp: parse: %v", err)
@@ -318,11 +347,28 @@ func loadImp(tg impTarget) *impPkg {
 			}
 		}
 	}
+	for _, ts := range specs { // self-pointer fields first: `next *S` inside S makes *S a list-node pointer
+		for _, fl := range ts.Type.(*ast.StructType).Fields.List {
+			if st, ok := fl.Type.(*ast.StarExpr); ok {
+				if id, ok := st.X.(*ast.Ident); ok && id.Name == ts.Name.Name {
+					if len(fl.Names) != 1 || p.listNext[ts.Name.Name] != "" {
+						p.die(fl, "more than one self-pointer field (only singly linked lists)")
+					}
+					p.listNext[ts.Name.Name] = fl.Names[0].Name
+				}
+			}
+		}
+	}
 	for _, ts := range specs {
 		var fs []impField
 		for _, fl := range ts.Type.(*ast.StructType).Fields.List {
 			if len(fl.Names) == 0 {
 				p.die(fl, "embedded field")
+			}
+			if st, ok := fl.Type.(*ast.StarExpr); ok {
+				if id, ok := st.X.(*ast.Ident); ok && id.Name == ts.Name.Name {
+					continue // the `next` pointer is the tail of the list value
+				}
 			}
 			for _, n := range fl.Names {
 				fs = append(fs, impField{n.Name, p.goType(fl.Type)})
@@ -351,6 +397,46 @@ func loadImp(tg impTarget) *impPkg {
 			}
 		case *ast.FuncDecl:
 			p.funcs[v.Name.Name] = v
+		}
+	}
+	if len(tg.pre) > 0 {
+		files, _ := filepath.Glob(filepath.Join(repo, tg.dir, "*.go"))
+		sort.Strings(files)
+		for _, fn := range files {
+			if strings.HasSuffix(fn, "_test.go") {
+				continue
+			}
+			af, err := parser.ParseFile(token.NewFileSet(), fn, nil, 0)
+			if err != nil {
+				die("imp: parse: %v", err)
+			}
+			for _, d := range af.Decls {
+				fd, ok := d.(*ast.FuncDecl)
+				if !ok || fd.Body == nil {
+					continue
+				}
+				ast.Inspect(fd.Body, func(n ast.Node) bool {
+					switch c := n.(type) {
+					case *ast.Ident: // also catches a function used as a value
+						p.callers[c.Name] = append(p.callers[c.Name], fd.Name.Name)
+					}
+					return true
+				})
+			}
+		}
+		for name := range tg.pre {
+			if ast.IsExported(name) {
+				die("imp: %s: entry condition declared for the exported function %s", tg.dir, name)
+			}
+			for _, c := range p.callers[name] {
+				ok := false
+				for _, fn := range tg.funcs {
+					ok = ok || fn == c
+				}
+				if !ok {
+					die("imp: %s: %s (which has an entry condition) is mentioned in %s, which is not translated", tg.dir, name, c)
+				}
+			}
 		}
 	}
 	// abstract package-local functions: found in any non-test file of the package
@@ -502,7 +588,7 @@ func (p *impPkg) translateFunc(name string) string {
 		params = append(params, "("+lname(f.recv)+" : "+p.lty(t, false)+")")
 	}
 	for _, fl := range fd.Type.Params.List {
-		if _, ok := fl.Type.(*ast.StarExpr); ok && p.goType(fl.Type).k != "bigint" {
+		if _, ok := fl.Type.(*ast.StarExpr); ok && p.goType(fl.Type).k != "bigint" && p.goType(fl.Type).k != "lptr" {
 			p.die(fl, "pointer parameter (outside the subset: only the receiver is passed by reference)")
 		}
 		t0 := p.paramType(fl.Type)
@@ -529,23 +615,67 @@ func (p *impPkg) translateFunc(name string) string {
 			params = append(params, "("+lname(n.Name)+" : "+p.lty(t, false)+")")
 		}
 	}
+	var namedRes []string
 	if fd.Type.Results != nil {
 		for _, fl := range fd.Type.Results.List {
 			if len(fl.Names) > 0 {
-				p.die(fl, "named results")
+				// named results are locals that start at their zero value (a bare `return` is refused: every return lists its values)
+				for _, n := range fl.Names {
+					t := p.paramType(fl.Type)
+					f.declare(fl, n.Name, t)
+					namedRes = append(namedRes, "  let "+lname(n.Name)+" : "+p.lty(t, false)+" := "+p.zero(t)+"  -- named result")
+					f.results = append(f.results, t)
+				}
+				continue
 			}
 			f.results = append(f.results, p.paramType(fl.Type))
 		}
+	}
+	// a slice result for which some return statement gives the literal nil (or the nil-able result of a method): the result is an
+	// Option (nil = none), every other returned value v is `some v`
+	ast.Inspect(fd.Body, func(n ast.Node) bool {
+		if _, ok := n.(*ast.FuncLit); ok {
+			return false
+		}
+		if r, ok := n.(*ast.ReturnStmt); ok && len(r.Results) == len(f.results) && p.tg.methodCalls {
+			for i, e := range r.Results {
+				if f.results[i].k != "slice" {
+					continue
+				}
+				if id, ok := e.(*ast.Ident); ok && id.Name == "nil" {
+					f.results[i] = &ity{k: "nslice", elem: f.results[i]}
+				} else if c, ok := e.(*ast.CallExpr); ok {
+					if se, ok := c.Fun.(*ast.SelectorExpr); ok && exprText(se.X) == f.recv {
+						if m := p.methods[se.Sel.Name]; m != nil && len(m.results) == 1 && m.results[0].k == "nslice" {
+							f.results[i] = m.results[0]
+						}
+					}
+				}
+			}
+		}
+		return true
+	})
+	for _, g := range p.tg.pre[name] { // entry condition: assumed here, checked at every call site
+		f.nonNil[g] = true
 	}
 	if f.recv != "" && f.recvTy.k == "elem" && len(f.results) == 1 && f.results[0].k == "elem" {
 		// `func (z *Element) M(…) *Element`: the methods of the element type return their receiver; the def returns the new value of z
 		f.retSelf = true
 		f.results = nil
 	}
+	if f.recv != "" && !f.evRecv && f.recvTy.k == "struct" && p.tg.methodCalls {
+		// a method that never assigns its receiver (nor calls a method that does) returns its results only
+		f.recvRO = true
+		for _, a := range f.assigned(fd.Body) {
+			if a == f.recv {
+				f.recvRO = false
+			}
+		}
+	}
 	u := &iuses{}
 	c := &ictx{uses: u,
 		ret: func(vals string) string {
-			if f.recv == "" {
+			if f.recv == "" || f.recvRO {
 				return vals
 			}
 			if len(f.results) == 0 {
@@ -561,6 +691,9 @@ func (p *impPkg) translateFunc(name string) string {
 	}
 	f.push()
 	body := f.seq(fd.Body.List, nil, c, "  ", nil, true)
+	if len(namedRes) > 0 {
+		body = strings.Join(namedRes, "\n") + "\n" + body
+	}
 	if f.evRecv {
 		body = "  let " + lname(f.recv) + " : " + p.lty(f.recvTy, false) + " := []  -- calls of the callback, in order\n" + body
 	}
@@ -571,13 +704,39 @@ func (p *impPkg) translateFunc(name string) string {
 		params = append(params, "("+fu+" : Nat)")
 	}
 	if f.recv == "" && len(f.results) == 1 && !u.W && !u.H && !u.S && !u.B && len(f.fuels) == 0 && !f.usesNumCPU {
-		sig := &impSig{result: f.results[0]}
+		sig := &impSig{result: f.results[0], nonNilRe: true}
 		for _, fl := range fd.Type.Params.List {
-			for range fl.Names {
+			for _, n := range fl.Names {
 				sig.params = append(sig.params, p.paramType(fl.Type))
+				sig.pnames = append(sig.pnames, n.Name)
 			}
 		}
+		ast.Inspect(fd.Body, func(n ast.Node) bool {
+			if r, ok := n.(*ast.ReturnStmt); ok {
+				if ue, ok := r.Results[0].(*ast.UnaryExpr); !ok || ue.Op != token.AND {
+					sig.nonNilRe = false
+				} else if _, ok := ue.X.(*ast.CompositeLit); !ok {
+					sig.nonNilRe = false
+				}
+			}
+			return true
+		})
 		p.translated[name] = sig
+	} else if len(p.tg.pre[name]) > 0 && f.recv == "" {
+		p.die(fd, "entry condition on a function that cannot be called from translated code")
+	}
+	if f.recv != "" && !f.evRecv && f.recvTy.k == "struct" && p.tg.methodCalls {
+		if u.W || u.H || u.S || u.B || f.usesNumCPU {
+			// such a method is translated but cannot be called from another translated one
+		} else {
+			m := &impMeth{mutates: !f.recvRO, results: f.results, nfuel: len(f.fuels)}
+			for _, fl := range fd.Type.Params.List {
+				for range fl.Names {
+					m.params = append(m.params, p.paramType(fl.Type))
+				}
+			}
+			p.methods[name] = m
+		}
 	}
 	var b strings.Builder
 	for _, h := range f.helpers {
@@ -682,6 +841,10 @@ func runImp() {
 				fmt.Fprintf(&b, "  %s : %s := %s\n", fl.name, p.lty(fl.ty, false), p.zero(fl.ty))
 			}
 			fmt.Fprintf(&b, "deriving Repr, DecidableEq\ninstance : Inhabited %s := ⟨{}⟩\n\n", sn)
+		}
+		if len(p.listNext) > 0 {
+			b.WriteString("/-- `*p` for a non-nil pointer `p` to a list node.  A pointer to a struct `S` that has a field `next *S` is translated to the VALUE\n`List S` of the chain of nodes reachable through `next` (nil = `[]`, `p.next` = `p.tail`, `&S{next: q, …}` = `{…} :: q`, the `next` field is\nnot a field of the Lean structure); the translator checks that every dereference is nil-guarded (or covered by a checked entry\ncondition) and that fields are only written through a pointer that is fresh and unaliased. -/\n")
+			b.WriteString("def nodeOf {α : Type} [Inhabited α] (p : List α) : α := p.headD default\n\n")
 		}
 		if len(tg.abstract) > 0 {
 			// only the functions that the translated ones call directly become parameters; the others are pinned by their text
